@@ -81,6 +81,9 @@ func IDs() []string {
 	return ids
 }
 
+// ColdBase is the first case index of the cold-start lane (see cmd/check).
+const ColdBase = uint64(5_000_000)
+
 // NewCase builds the case of run i.
 func NewCase(p Property, verifSeed, i uint64, tier string) *sim.Case {
 	c := &sim.Case{Prop: p.ID(), Seed: verifSeed, Run: i, Lane: "A", Cfg: map[string]int{}}
@@ -89,6 +92,9 @@ func NewCase(p Property, verifSeed, i uint64, tier string) *sim.Case {
 	// the clock the library reads during this run (clock seam of the instrumented copy): steady, jumping or stuck
 	if c.Cfg == nil {
 		c.Cfg = map[string]int{}
+	}
+	if i >= ColdBase {
+		c.Cfg["cold"] = 1 // cold-start lane: executed in a fresh process, concurrent phase first
 	}
 	c.Cfg["clock"] = []int{simrt.ClockSteady, simrt.ClockSteady, simrt.ClockSteady, simrt.ClockSteady, simrt.ClockSteady, simrt.ClockSteady, simrt.ClockSteady, simrt.ClockJumps, simrt.ClockJumps, simrt.ClockStuck}[r.Intn(10)]
 	return c
